@@ -10,7 +10,8 @@ class C04(CacheProp):
             "rejection / eviction, TTL expiry, ShouldUpdate refusals, Clear (also with buffered items) and Close; the "
             "callbacks of every step compared with the machine; oracle per value: OnExit at most once and exactly once by "
             "the time Close returns for accepted values, never for refused ones, OnEvict/OnReject at most once and "
-            "followed by OnExit in the same step; non-trivial = an eviction, rejection or blocked call occurred")
+            "followed by OnExit in the same step; non-trivial = an eviction, rejection or blocked call occurred"
+            " Plus, as search only: the concurrent stress harness with the oracles 'no value is passed to OnExit twice' and 'every value whose Set returned true has been passed to OnExit when Close returns'.")
 
     def oracle(self, case, il):
         fails = []
